@@ -77,6 +77,7 @@ type stub struct {
 	Name     string `toml:"name"`
 	Prefix   string `toml:"prefix"`
 	ReadSize int    `toml:"readsize"`
+	Delay    int    `toml:"delay"` // ms to wait before the first read
 	ch       pushers.Channel
 }
 
@@ -94,6 +95,9 @@ func (s *stub) Handle(ctx context.Context, conn net.Conn) error {
 	}
 	var got []byte
 	var reads []int
+	if s.Delay > 0 {
+		time.Sleep(time.Duration(s.Delay) * time.Millisecond)
+	}
 	buf := make([]byte, rs)
 	for {
 		n, err := conn.Read(buf)
@@ -213,6 +217,71 @@ func (l *Lab) Stop() {
 	}
 }
 
+// StartSocket boots a server whose configuration uses the real "socket" listener and
+// waits until readyTCP (a configured loopback tcp address) accepts connections.
+func StartSocket(tomlText, scratch, readyTCP string) (*Lab, error) {
+	l := &Lab{Events: map[string][]event.Event{}, accept: make(chan net.Conn), started: make(chan struct{}), done: make(chan struct{})}
+	curMu.Lock()
+	cur = l
+	curMu.Unlock()
+	config.Default = config.Config{}
+	labSeq++
+	p := filepath.Join(scratch, fmt.Sprintf("lab-%d.toml", labSeq))
+	if err := os.WriteFile(p, []byte(tomlText), 0o644); err != nil {
+		return nil, err
+	}
+	defer os.Remove(p)
+	opt, err := server.WithConfig(p)
+	if err != nil {
+		return nil, err
+	}
+	srv, err := server.New(opt)
+	if err != nil {
+		return nil, err
+	}
+	ctx, cancel := context.WithCancel(context.Background())
+	l.cancel = cancel
+	go func() {
+		defer close(l.done)
+		srv.Run(ctx)
+	}()
+	deadline := time.Now().Add(10 * time.Second)
+	for time.Now().Before(deadline) {
+		c, err := net.DialTimeout("tcp", readyTCP, 200*time.Millisecond)
+		if err == nil {
+			c.Close()
+			l.once.Do(func() { close(l.started) })
+			return l, nil
+		}
+		time.Sleep(20 * time.Millisecond)
+	}
+	return l, fmt.Errorf("socket listener did not come up on %s", readyTCP)
+}
+
+// FreePorts returns n currently free loopback port numbers (tcp and udp checked).
+func FreePorts(n int) []int {
+	var out []int
+	var keep []io.Closer
+	for len(out) < n {
+		t, err := net.Listen("tcp", "127.0.0.1:0")
+		if err != nil {
+			continue
+		}
+		port := t.Addr().(*net.TCPAddr).Port
+		u, err := net.ListenUDP("udp", &net.UDPAddr{IP: net.ParseIP("127.0.0.1"), Port: port})
+		if err != nil {
+			t.Close()
+			continue
+		}
+		keep = append(keep, t, u)
+		out = append(out, port)
+	}
+	for _, c := range keep {
+		c.Close()
+	}
+	return out
+}
+
 // Started reports whether the listener was started (false: Run returned early).
 func (l *Lab) Started() bool {
 	select {
@@ -250,6 +319,27 @@ func (c *AConn) Close() error {
 	return c.Conn.Close()
 }
 func (c *AConn) Closed() <-chan struct{} { return c.closed }
+
+// A real TCP socket accepts deadlines after the peer has closed (the next Read then
+// reports EOF); net.Pipe refuses them with io.ErrClosedPipe.  Emulate the socket.
+func (c *AConn) SetDeadline(t time.Time) error {
+	if err := c.Conn.SetDeadline(t); err != nil && err != io.ErrClosedPipe {
+		return err
+	}
+	return nil
+}
+func (c *AConn) SetReadDeadline(t time.Time) error {
+	if err := c.Conn.SetReadDeadline(t); err != nil && err != io.ErrClosedPipe {
+		return err
+	}
+	return nil
+}
+func (c *AConn) SetWriteDeadline(t time.Time) error {
+	if err := c.Conn.SetWriteDeadline(t); err != nil && err != io.ErrClosedPipe {
+		return err
+	}
+	return nil
+}
 
 // Pipe returns the server side (with the given addresses) and the client side.
 func Pipe(local, remote net.Addr) (*AConn, net.Conn) {
